@@ -11,7 +11,7 @@ import itertools
 from ..core.absint import Intervals
 from ..core.flow import call_name, calls_in, is_name
 from ..core.loader import AnalysisError, short, own_nodes, norm
-from ..core.minieval import Evaluator, Unsupported, Raised
+from ..core.minieval import Evaluator, Unsupported, Raised, MODKEY as MODKEY_
 from ..core.report import where
 from ..specs.evm import SMTLIB, NEUTRAL, ABSORBING
 
@@ -34,16 +34,95 @@ ASSUMPTIONS = ["SMT-LIB 2.6 Core/Ints semantics of the symbols in sa/specs/evm.p
 CF = "smt_encoding.constraints.connector_factory"
 
 
+class _FakeRegistry:
+    def __init__(self):
+        self.entries = {}
+
+    def register_connector(self, name, arity, comm, fn):
+        self.entries[name] = {"arity": arity, "comm": comm, "fn": fn}
+
+
+def evaluated_registry(ctx):
+    """The registry as the module body builds it: the top-level statements of connector_factory (assignments, calls, loops) are
+    interpreted in order with a recording stand-in for the Connectors singleton; module-level functions and lambdas become
+    callables that interpret their own AST (closures bind late, as in Python).  -> {name: {arity, comm, fn, node}}"""
+    import operator as _op
+    if "C18.evalreg" in ctx.cache:
+        return ctx.cache["C18.evalreg"]
+    mod = ctx.p.module(CF)
+    REG = _FakeRegistry()
+    shared = {"Connectors": (lambda: REG), "operator": {MODKEY_: "operator", **{k: getattr(_op, k) for k in ("lt", "le", "gt", "ge", "eq", "ne", "not_", "and_", "or_")}},
+              "Connector": "Connector"}
+
+    def type_of(x):
+        return bool if isinstance(x, bool) else int if isinstance(x, int) else "Connector" if isinstance(x, FakeConn) else "ExpressionReference"
+    shared["type"] = type_of
+
+    def create_connector(name, *args):
+        e = REG.entries.get(name)
+        if e is None:
+            raise Raised(f"ValueError: connector {name} not registered")
+        if (e["arity"] != -1 and e["arity"] != len(args)) or (e["arity"] == -1 and len(args) == 0):
+            raise Raised("AssertionError")
+        return FakeConn(name, e["comm"], *args)
+
+    def create_and_simplify(name, *args):
+        c = create_connector(name, *args)
+        return REG.entries[name]["fn"](c)
+    REG.create_connector = create_connector
+    REG.create_connector_and_simplify = create_and_simplify
+
+    def hook(fname, args, kwargs):
+        raise Unsupported(f"call {fname}")
+
+    def closure(node):
+        def call(*a, **k):
+            ev = Evaluator(node, globals_env=shared, call_hook=hook, obj_types=(FakeConn, _FakeRegistry, Atom), max_steps=200000)
+            ev.genv = shared
+            return ev.call(*a, **k)
+        return call
+    body = []
+    assigned = set()
+    for st in mod.tree.body:
+        if isinstance(st, ast.FunctionDef):
+            shared[st.name] = closure(st)
+        elif isinstance(st, (ast.Assign, ast.Expr, ast.For, ast.If, ast.AugAssign)):
+            if isinstance(st, ast.Expr) and isinstance(st.value, ast.Constant):
+                continue
+            body.append(st)
+            for x in ast.walk(st):
+                if isinstance(x, ast.Name) and isinstance(x.ctx, ast.Store):
+                    assigned.add(x.id)
+    fn = ast.FunctionDef(name="_module", args=ast.arguments(posonlyargs=[], args=[], kwonlyargs=[], kw_defaults=[], defaults=[]),
+                         body=([ast.Global(names=sorted(assigned))] if assigned else []) + body, decorator_list=[])
+    ev = Evaluator(fn, globals_env=shared, call_hook=hook, obj_types=(FakeConn, _FakeRegistry, Atom), max_steps=200000)
+    ev.genv = shared
+    try:
+        ev.call()
+    except (Unsupported, Raised) as e:
+        raise AnalysisError(f"connector_factory: module body cannot be evaluated abstractly: {e}")
+    # source positions of the registrations, for messages
+    nodes = {}
+    for st in ast.walk(mod.tree):
+        if isinstance(st, ast.Call) and call_name(st) == "register_connector" and st.args and isinstance(st.args[0], ast.Constant):
+            nodes[st.args[0].value] = st
+    out_ = {k: dict(v, node=nodes.get(k)) for k, v in REG.entries.items()}
+    if len(out_) < 6:
+        raise AnalysisError(f"only {len(out_)} connectors registered by the module body of connector_factory")
+    ctx.cache["C18.evalreg"] = (out_, REG)
+    return out_, REG
+
+
 def registry(ctx):
     mod = ctx.p.module(CF)
+    ereg, _ = evaluated_registry(ctx)
     reg = {}
-    for st in mod.tree.body:
-        if isinstance(st, ast.Expr) and isinstance(st.value, ast.Call) and call_name(st.value) == "register_connector":
-            a = st.value.args
-            if len(a) >= 4 and isinstance(a[0], ast.Constant):
-                reg[a[0].value] = {"arity": ast.literal_eval(a[1]), "comm": ast.literal_eval(a[2]), "simp": a[3], "node": st}
-    if len(reg) < 6:
-        raise AnalysisError(f"only {len(reg)} connector registrations found at module level of connector_factory")
+    for name, e in ereg.items():
+        simp = None
+        n = e["node"]
+        if n is not None and len(n.args) >= 4:
+            simp = n.args[3]
+        reg[name] = {"arity": e["arity"], "comm": e["comm"], "simp": simp if simp is not None else ast.Constant(value=None), "node": n if n is not None else mod.tree, "fn": e["fn"]}
     return mod, reg
 
 
@@ -435,6 +514,32 @@ def rule_d(ctx, out):
             out.ok({"simplifier": f_eq.name, "input": repr(conn), "output": repr(res)})
         else:
             out.bad(f"{f_eq.name}:changes-truth-value:int:{kind}", f"{f_eq.name}({conn!r}) = {res!r}", where(f_eq), {"input": repr(conn), "output": repr(res)})
+    # integer-sorted comparison connectors, through the registry as the module builds it (whatever callable each name got)
+    _, REG = evaluated_registry(ctx)
+    sem = {"<": lambda a, b: a < b, "<=": lambda a, b: a <= b, "=": lambda a, b: a == b, "distinct": lambda a, b: a != b}
+    for cname, truth in sem.items():
+        if cname not in REG.entries:
+            continue
+        for a, b in [(0, 0), (0, 1), (1, 0), (2, 2), (5, 7), (7, 5), (1000, int("1000")), (x, 3), (3, x), (x, x), (x, Atom("y"))]:
+            try:
+                res = REG.create_connector_and_simplify(cname, a, b)
+            except Raised as e:
+                out.bad(f"simplifier-of:{cname}:raises", f"the simplifier registered for \"{cname}\" raises {e.what} on ({a!r}, {b!r})", where(mod))
+                continue
+            except Unsupported as e:
+                raise AnalysisError(f"simplifier of \"{cname}\": cannot evaluate abstractly on ({a!r}, {b!r}): {e}")
+            plain = FakeConn(cname, False, a, b)
+            if isinstance(a, int) and isinstance(b, int):
+                good = (isinstance(res, bool) and res == truth(a, b)) or (isinstance(res, FakeConn) and res.connector_name == cname and res.arguments == [a, b])
+            elif isinstance(res, bool):
+                good = a == b and res == truth(0, 0)       # a term compared with itself
+            else:
+                good = isinstance(res, FakeConn) and res.connector_name == cname and res.arguments == [a, b]
+            if good:
+                out.ok({"connector": cname, "arguments": [repr(a), repr(b)], "result": repr(res)})
+            else:
+                out.bad(f"simplifier-of:{cname}:changes-truth-value:{'literals' if isinstance(a, int) and isinstance(b, int) else 'terms'}",
+                        f"`({cname} {a!r} {b!r})` is built as {res!r}", where(mod, REG.entries[cname].get('node') if False else None))
     # informational: bool/int literal folding in _simplify_equal
     out.info["literal_typing"] = "_simplify_equal folds a bool/int literal pair with Python == (add_eq(True, 1) -> True); the unsimplified formula is ill-sorted"
 
